@@ -52,6 +52,7 @@ fn main() {
         "dbhist" => suite_db::run_dbhist,
         "crash" => suite_crash::run_crash,
         "recover" => suite_crash::run_recover,
+        "recoverc" => suite_crash::run_recover_corrupt,
         "proto" => suite_proto::run_proto,
         "wfault" => suite_wfault::run_wfault,
         "fault" => suite_fault::run_fault,
